@@ -102,6 +102,7 @@ def evaluate(case):
             res.fail("top-index-missing", f"no index.rst at the top of the output; files {sorted(files)[:6]}")
             return res
         reach_pages, reach_idx = set(), set()
+        index_titles = {}
         todo = ["index.rst"]
         while todo:
             idx = todo.pop()
@@ -137,6 +138,7 @@ def evaluate(case):
             for e in file_entries:
                 reach_pages.add((d + "/" if d else "") + e + ".rst")
             # title
+            index_titles.setdefault(page.title, []).append(idx)
             want_title = prefix if d == "" else None
             if d == "":
                 if page.title != prefix:
@@ -145,6 +147,10 @@ def evaluate(case):
                 rel = d.replace("/", ".")
                 if page.title is None or not (page.title.endswith(d) or page.title.endswith(rel)):
                     res.fail("index-title-sub", f"{idx}: title {page.title!r} does not name the directory {d!r}")
+        for t, idxs in index_titles.items():
+            if len(idxs) > 1:
+                # a title names its directory: two directories cannot share one
+                res.fail("index-title-not-distinct", f"title {t!r} used by {sorted(idxs)}")
         for p in sorted(pages - reach_pages):
             res.fail("page-unreachable", f"{p!r} is not reachable from the top index.rst")
         for p in sorted(indexes - reach_idx):
